@@ -132,7 +132,8 @@ class Environment:
             )
 
     def remove(self, name):
-        del self.map[name]
+        if name in self.map:
+            del self.map[name]
 
     def newEnv(self):
         return Environment(self)
